@@ -62,6 +62,9 @@ def run(F, R):
     # O10: "never moves backwards" and slot selection rely on the free-running indices being advanced by wrapping arithmetic only
     from .C03 import counters_rule
     counters_rule(F, R, 'O10')
+    # O11: "its ring slot completely written" is relative to the size the device was told (C06.L3 queue_set arguments)
+    from .C06 import registration_rule
+    registration_rule(F, R, 'O11')
     eps = queue_api_entry_points(F, M)
     R.count('entry_points', len(eps))
     idx_writer_fns = []
